@@ -417,11 +417,14 @@ def run(ctx):
     ne2e = 0
     for prefix in ('xdoctest', 'xdoc', 'doctest'):
         for sign in ('+', '-'):
-            for inline in (False, True):
+            # layouts: the directive on the statement's line (inline); on a prompt line of its own (block), then possibly spacing
+            # in front of the statement: empty prompt lines, a remark, an empty continuation line
+            for inline, spacer in ((False, []), (True, []), (False, ['>>>']), (False, ['>>>', '>>>']), (False, ['>>> # a remark']), (False, ['>>> ']),
+                                   (False, ['>>> # a remark', '>>>'])):
                 for out, want, wild in (('alpha beta gamma', 'alpha ... gamma', True), ('alpha beta gamma', 'alpha...gamma', True),
                                         ('a...b', 'a...b', False), ('one two', 'one ... three', None)):
                     d = '# %s: %sELLIPSIS' % (prefix, sign)
-                    lines = ([] if inline else ['>>> ' + d]) + [">>> print(%r)%s" % (out, ('  ' + d) if inline else ''), want]
+                    lines = ([] if inline else ['>>> ' + d]) + spacer + [">>> print(%r)%s" % (out, ('  ' + d) if inline else ''), want]
                     ex = doctest_example.DocTest(docsrc='\n'.join(lines), lineno=1)
                     with contextlib.redirect_stdout(io.StringIO()):
                         try:
